@@ -828,6 +828,9 @@ def while_to_for(fn, types):
     return n
 
 
+_UW = [0]
+
+
 def option_combinators(fn):
     """D9  `opt.map(|p| e)`        ->  `match opt { Some(p) => Some(e), None => None }`
            `opt.and_then(|p| e)`   ->  `match opt { Some(p) => e, None => None }`
@@ -854,6 +857,61 @@ def option_combinators(fn):
             cl, dflt = _unblk(args[1]), _unblk(args[0])
             if dflt is None or dflt.get("k") not in ("lit", "path", "local"):
                 return x
+        elif name == "unwrap_or" and len(args) == 1:
+            d_ = _unblk(args[0])
+            d0 = d_
+            while d0 is not None and d0.get("k") == "ref":
+                d0 = _unblk(d0["x"])
+            if d0 is None or d0.get("k") not in ("lit", "path", "local"):
+                return x
+            _UW[0] += 1
+            vh = 9700000 + _UW[0]
+            line = x.get("line")
+            bind = {"k": "bind", "name": "_uw%d" % _UW[0], "hid": vh, "mode": "BindingMode(No, Not)", "t": x.get("t")}
+            m = {"k": "match", "scrut": x["recv"], "src": "Normal", "line": line, "from_option_combinator": name,
+                 "arms": [{"pat": {"k": "tstruct", "path": "std::prelude::v1::Some", "ps": [bind]}, "guard": None,
+                           "body": {"k": "local", "name": "_uw%d" % _UW[0], "hid": vh, "t": x.get("t"), "line": line}},
+                          {"pat": {"k": "ppath", "path": "std::prelude::v1::None"}, "guard": None, "body": args[0]}]}
+            for key in ("t", "ta", "id"):
+                if key in x:
+                    m[key] = x[key]
+            n += 1
+            return m
+        elif name == "filter" and len(args) == 1:
+            cl = _unblk(args[0])
+            if cl is None or cl.get("k") != "closure" or len(cl.get("params") or []) != 1 or any(y.get("k") == "ret" for y in _walk(cl["body"])):
+                return x
+            prm = cl["params"][0]
+            q = prm
+            while q is not None and q.get("k") in ("ref", "deref"):
+                q = q["p"]
+            if q is None or q.get("k") not in ("bind", "wild"):
+                return x
+            _UW[0] += 1
+            vh = 9700000 + _UW[0]
+            line = x.get("line")
+            vb = {"k": "bind", "name": "_fl%d" % _UW[0], "hid": vh, "mode": "BindingMode(No, Not)", "t": None}
+            vloc = lambda: {"k": "local", "name": "_fl%d" % _UW[0], "hid": vh, "line": line}
+            cond = cl["body"]
+            if q.get("k") == "bind":
+                # the predicate sees the payload through its own name
+                cond = {"k": "blk", "b": {"k": "block", "stmts": [{"k": "let", "pat": q, "init": {"k": "ref", "mut": False, "x": vloc(), "line": line}, "els": None, "line": line}],
+                                          "tail": cl["body"]}, "line": line}
+            some_v = {"k": "call", "callee": "std::prelude::v1::Some", "f": {"k": "path", "def": "std::prelude::v1::Some", "line": line}, "args": [vloc()], "line": line}
+            none_v = lambda: {"k": "path", "def": "std::prelude::v1::None", "line": line}
+            for nd in (some_v,):
+                if "t" in x:
+                    nd["t"] = x["t"]
+            m = {"k": "match", "scrut": x["recv"], "src": "Normal", "line": line, "from_option_combinator": name,
+                 "arms": [{"pat": {"k": "tstruct", "path": "std::prelude::v1::Some", "ps": [vb]}, "guard": None,
+                           "body": {"k": "if", "c": cond, "th": {"k": "blk", "b": {"k": "block", "stmts": [], "tail": some_v}, "line": line},
+                                    "el": {"k": "blk", "b": {"k": "block", "stmts": [], "tail": none_v()}, "line": line}, "line": line}},
+                          {"pat": {"k": "ppath", "path": "std::prelude::v1::None"}, "guard": None, "body": none_v()}]}
+            for key in ("t", "ta", "id"):
+                if key in x:
+                    m[key] = x[key]
+            n += 1
+            return m
         else:
             return x
         if cl is None or cl.get("k") != "closure" or len(cl.get("params") or []) != 1 or any(y.get("k") == "ret" for y in _walk(cl["body"])):
@@ -1414,6 +1472,160 @@ def range_for_each(fn):
     return n
 
 
+_MC = [0]
+
+
+def range_map_collect_to_push(fn, types):
+    """D21 (loop-nest extractor only)  `(0..n).map(|i| e).collect()`  ->  `{ let mut v = Vec::new(); for i in 0..n { v.push(e); } v }`
+    (what collect() of a mapped range builds, one element per index, in order).  The closure must not `return` early."""
+    n = 0
+
+    def rewrite(x):
+        nonlocal n
+        if isinstance(x, list):
+            return [rewrite(v) for v in x]
+        if not isinstance(x, dict):
+            return x
+        for k_, v in list(x.items()):
+            if isinstance(v, (dict, list)):
+                x[k_] = rewrite(v)
+        if not (x.get("k") == "mcall" and x.get("name") == "collect" and not x["args"]):
+            return x
+        mp = _unblk(x["recv"])
+        if not (mp is not None and mp.get("k") == "mcall" and mp.get("name") == "map" and len(mp["args"]) == 1):
+            return x
+        rng = _unblk(mp["recv"])
+        cl = _unblk(mp["args"][0])
+        if not (rng is not None and rng.get("k") == "struct" and rng.get("path") == "std::ops::Range" and cl is not None and cl.get("k") == "closure"
+                and len(cl.get("params") or []) == 1 and cl["params"][0].get("k") in ("bind", "wild")):
+            return x
+        if any(y.get("k") == "ret" for y in _walk(cl["body"])):
+            return x
+        _MC[0] += 1
+        vh = 9500000 + _MC[0]
+        line = x.get("line")
+        vt = x.get("t")
+        vloc = lambda: {"k": "local", "name": "_mc%d" % _MC[0], "hid": vh, "t": vt, "ta": None, "line": line}
+        ta_mut = None
+        for i_, t_ in enumerate(types):
+            if vt is not None and vt < len(types) and t_ == "&mut " + types[vt]:
+                ta_mut = i_
+        recv = vloc()
+        recv["ta"] = ta_mut
+        push = {"k": "mcall", "name": "push", "callee": "std::vec::Vec::<T, A>::push", "recv": recv, "args": [cl["body"]], "line": line}
+        lp = {"k": "for", "pat": cl["params"][0], "iter": rng, "loop_id": 9600000 + _MC[0], "line": line, "from_map_collect": True,
+              "body": {"k": "blk", "b": {"k": "block", "stmts": [push], "tail": None}, "line": line}}
+        decl = {"k": "let", "pat": {"k": "bind", "name": "_mc%d" % _MC[0], "hid": vh, "mode": "BindingMode(No, Mut)", "t": vt},
+                "init": {"k": "call", "callee": "std::vec::Vec::<T>::new", "f": {"k": "path", "def": "std::vec::Vec::<T>::new"}, "args": [], "t": vt, "line": line},
+                "els": None, "line": line}
+        n += 1
+        out = {"k": "blk", "b": {"k": "block", "stmts": [decl, lp], "tail": vloc()}, "line": line, "from_map_collect": True}
+        if vt is not None:
+            out["t"] = vt
+        return out
+    if fn.get("body") is not None:
+        fn["body"] = rewrite(fn["body"])
+    return n
+
+
+def option_case_of_case(fn):
+    """D19  matching on an Option that was itself produced by matching on an Option:
+        if let Some(P) = (match e { Some(Q) => B, None => None }) { T }      ->   if let Some(Q) = e { if let Some(P) = B { T } }
+        if let Some(P) = Some(v) { T }                                         ->   { let P = v; T }
+        if let Some(P) = None { T }                                            ->   (nothing)
+    also when the inner match is first bound to an immutable local that is used nowhere else (`let t = match ..; if let Some(P) = t {..}`).
+    Only for `if let` without an `else` branch (nothing would have to be duplicated)."""
+    n = 0
+
+    def is_some_pat(p):
+        while p is not None and p.get("k") in ("ref", "deref"):
+            p = p["p"]
+        return p if (p is not None and p.get("k") == "tstruct" and p["path"].endswith("::Some") and len(p.get("ps") or []) == 1) else None
+
+    def is_none_pat(p):
+        while p is not None and p.get("k") in ("ref", "deref"):
+            p = p["p"]
+        return p is not None and ((p.get("k") == "ppath" and p["path"].endswith("::None")) or p.get("k") == "wild")
+
+    def simplify(iff):
+        """iff: an `if` node with letx condition and no else -> replacement node (or None when nothing applies)"""
+        nonlocal n
+        c = _unblk(iff["c"])
+        sp = is_some_pat(c["pat"])
+        if sp is None or iff.get("el") is not None:
+            return None
+        init = _unblk(c["init"])
+        if init is None:
+            return None
+        line = iff.get("line")
+        if init.get("k") == "call" and str(init.get("callee", "")).endswith("::Some") and len(init["args"]) == 1:
+            n += 1
+            th = iff["th"]
+            inner = th["b"] if th.get("k") == "blk" and th.get("lbl") is None else {"k": "block", "stmts": [], "tail": th}
+            let = {"k": "let", "pat": sp["ps"][0], "init": init["args"][0], "els": None, "line": line}
+            return {"k": "blk", "b": {"k": "block", "stmts": [let] + list(inner["stmts"]), "tail": inner.get("tail")}, "line": line, "from_case_of_case": True}
+        if init.get("k") == "path" and str(init.get("def", "")).endswith("::None"):
+            n += 1
+            return {"k": "tup", "xs": [], "line": line}
+        if init.get("k") == "if" and init.get("el") is not None and _unblk(init["c"]) is not None and _unblk(init["c"]).get("k") != "letx":
+            th_, el_ = _unblk(init["th"]), _unblk(init["el"])
+            if (th_ is not None and th_.get("k") == "call" and str(th_.get("callee", "")).endswith("::Some") and len(th_["args"]) == 1
+                    and el_ is not None and el_.get("k") == "path" and str(el_.get("def", "")).endswith("::None")):
+                # if let Some(P) = (if c { Some(v) } else { None }) { T }   ->   if c { let P = v; T }
+                n += 1
+                inner_if = {"k": "if", "c": {"k": "letx", "pat": c["pat"], "init": th_, "line": line}, "th": iff["th"], "el": None, "line": line}
+                inner_r = simplify(inner_if) or inner_if
+                return {"k": "if", "c": init["c"], "th": {"k": "blk", "b": {"k": "block", "stmts": [inner_r], "tail": None}, "line": line}, "el": None, "line": line, "from_case_of_case": True}
+        if init.get("k") == "match" and len(init["arms"]) == 2 and all(a.get("guard") is None for a in init["arms"]):
+            some = [a for a in init["arms"] if is_some_pat(a["pat"]) is not None]
+            none = [a for a in init["arms"] if is_none_pat(a["pat"])]
+            if len(some) == 1 and len(none) == 1:
+                nb = _unblk(none[0]["body"])
+                if nb is not None and nb.get("k") == "path" and str(nb.get("def", "")).endswith("::None"):
+                    n += 1
+                    inner_if = {"k": "if", "c": {"k": "letx", "pat": c["pat"], "init": some[0]["body"], "line": line}, "th": iff["th"], "el": None, "line": line}
+                    inner_r = simplify(inner_if) or inner_if
+                    return {"k": "if", "c": {"k": "letx", "pat": some[0]["pat"], "init": init["scrut"], "line": line},
+                            "th": {"k": "blk", "b": {"k": "block", "stmts": [inner_r], "tail": None}, "line": line}, "el": None, "line": line, "from_case_of_case": True}
+        return None
+
+    def rewrite(x):
+        if isinstance(x, list):
+            return [rewrite(v) for v in x]
+        if not isinstance(x, dict):
+            return x
+        for k_, v in list(x.items()):
+            if isinstance(v, (dict, list)):
+                x[k_] = rewrite(v)
+        if x.get("k") == "block":
+            # `let t = <option match>; if let Some(P) = t { .. }` with t used nowhere else
+            i = 0
+            while i + 1 < len(x["stmts"]) + (1 if x.get("tail") is not None else 0):
+                s = x["stmts"][i] if i < len(x["stmts"]) else None
+                nxt = x["stmts"][i + 1] if i + 1 < len(x["stmts"]) else x.get("tail")
+                if (s is not None and s.get("k") == "let" and s["pat"].get("k") == "bind" and not s.get("els") and "Mut)" not in str(s["pat"].get("mode"))
+                        and s.get("init") is not None and _unblk(s["init"]).get("k") == "match" and nxt is not None and nxt.get("k") == "if"
+                        and _unblk(nxt["c"]) is not None and _unblk(nxt["c"]).get("k") == "letx" and nxt.get("el") is None):
+                    cn = _unblk(nxt["c"])
+                    ci = _unblk(cn["init"])
+                    hid = s["pat"]["hid"]
+                    rest = (x["stmts"][i + 2:] if i + 1 < len(x["stmts"]) else []) + ([x["tail"]] if (x.get("tail") is not None and nxt is not x.get("tail")) else [])
+                    if (ci is not None and ci.get("k") == "local" and ci["hid"] == hid and not _mentions(nxt["th"], hid) and not any(_mentions(r_, hid) for r_ in rest)
+                            and is_some_pat(cn["pat"]) is not None):
+                        cn["init"] = s["init"]
+                        del x["stmts"][i]
+                        continue
+                i += 1
+            x["stmts"] = [(simplify(s_) or s_) if (s_.get("k") == "if" and _unblk(s_["c"]) is not None and _unblk(s_["c"]).get("k") == "letx") else s_ for s_ in x["stmts"]]
+            t = x.get("tail")
+            if isinstance(t, dict) and t.get("k") == "if" and _unblk(t["c"]) is not None and _unblk(t["c"]).get("k") == "letx":
+                x["tail"] = simplify(t) or t
+        return x
+    if fn.get("body") is not None:
+        fn["body"] = rewrite(fn["body"])
+    return n
+
+
 _CTR = [0]
 
 
@@ -1432,6 +1644,7 @@ def run(facts):
         counts["while_loops"] = counts.get("while_loops", 0) + while_to_for(fn, facts["types"])
         counts["option_combinators"] = counts.get("option_combinators", 0) + option_combinators(fn)
         counts["let_else"] += let_else_to_match(fn["body"])
+        counts["case_of_case"] = counts.get("case_of_case", 0) + option_case_of_case(fn)
         counts["lifted_arg_blocks"] = counts.get("lifted_arg_blocks", 0) + lift_arg_blocks(fn, facts["types"])
         counts["trivial_arg_blocks"] = counts.get("trivial_arg_blocks", 0) + unwrap_trivial_arg_blocks(fn)
         counts["flattened_blocks"] = counts.get("flattened_blocks", 0) + flatten_blocks(fn)
